@@ -23,12 +23,19 @@ def run_case(c):
     env.update(CLASSES)
     env["holder"] = RW.Holder(pop.get(c["target"])) if c["target"] in pop else None
     env["meth"] = RW.meth
+    env["poll"] = RW.poll
+    nested = c["path"] in ("nested", "nested_ctx") and c["method"] != "prop"
+    via = c.get("via") or [True] * len(c["calls"])
     m = c["method"]
     recvname = "this" if m == "other" else "self"
     if c["path"] == "selfcap" and c["target"] in pop and m != "prop":
         text = f"{c['target']}.{m}({recvname}) > v"              # the receiver parameter named explicitly
     elif c["path"] == "selfalias" and c["target"] in pop and m != "prop":
         text = f"{c['target']}.{m}({recvname} as who, x) > v"
+    elif c["path"] == "nested" and m != "prop":
+        text = f"poll > {c['target']}.{m} > v"                   # the method is an inner step of a call path
+    elif c["path"] == "nested_ctx" and m != "prop":
+        text = f"poll(tick) > {c['target']}.{m}(x) > v"
     elif c["path"] == "dotted" and c["target"] in pop:
         text = f"holder.obj.{m} > v"
     else:
@@ -46,6 +53,9 @@ def run_case(c):
                 if m == "prop":
                     r = o.prop
                     rets.append(r == o.key + 4)
+                elif nested and via[i]:
+                    r = RW.poll(o, 10 + i, m)
+                    rets.append(r == 10 + i + RESULT[m])
                 else:
                     r = getattr(o, m)(10 + i)
                     rets.append(r == 10 + i + RESULT[m])
@@ -65,7 +75,7 @@ def run_case(c):
             if k not in ("v", "_call") and id(v) in byid:
                 selfname = byid[id(v)]
         evs.append({"call": e["_call"] + 1, "v": e.get("v", -1), "self": selfname})
-    return dict(c, text=text, outcome=outcome, events=evs, rets_ok=all(rets), plain_observed=plain)
+    return dict(c, text=text, outcome=outcome, events=evs, rets_ok=all(rets), plain_observed=plain, via=via, nested=nested)
 
 
 def main():
